@@ -1,66 +1,8 @@
-(* C07 -- proofs over the decision trees regenerated from /repo (C07_gen.v).  The scripts do not depend on the shape
-   of the trees: every comparison is split, every division p / q is abstracted into d with d * q = p (q <> 0 from the
-   pivot tests of the leaf), the input entries are eliminated and the rest is a ring identity (nsatz as fallback). *)
+(* C07 -- proofs over the decision trees regenerated from /repo (C07_gen.v): closed forms and the LU path, N <= 3. *)
 From Coq Require Import Reals List Lra Nsatz.
-From C07 Require Import C07Spec C07_gen.
+From C07 Require Import C07Spec C07Tactics C07_gen.
 Import ListNotations.
 Local Open Scope R_scope.
-
-Lemma div_eq : forall n p q : R, q <> 0 -> n = p / q -> n * q = p.
-Proof. intros n p q Hq E. subst n. field. exact Hq. Qed.
-
-Ltac split_tree H :=
-  repeat match type of H with
-  | context [if Rlt_dec ?a ?b then _ else _] => destruct (Rlt_dec a b)
-  end.
-Ltac abstract_divisions :=
-  repeat match goal with
-  | |- context [?p / ?q] =>
-      let d := fresh "d" in let E := fresh "E" in
-      remember (p / q) as d eqn:E in *;
-      apply div_eq in E;
-      [| let Hz := fresh "Hz" in intro Hz; assert (Rabs q = 0) by (rewrite Hz; apply Rabs_R0); lra]
-  end.
-Ltac eliminate_inputs :=
-  repeat match goal with
-  | E : _ * _ = ?v |- _ => is_var v; subst v
-  | E : ?l = ?v - ?r |- _ => is_var v;
-      let E' := fresh "E" in
-      assert (E' : v = l + r) by (rewrite E; ring); clear E; subst v
-  end.
-Ltac list_eq :=
-  repeat match goal with
-  | |- (_ :: _) = (_ :: _) => apply f_equal2
-  | |- @nil _ = @nil _ => reflexivity
-  end.
-Ltac unfold_spec := unfold solves, is_inverse, mat_mul, entry, ident, sel; cbn.
-(* closed forms (Cramer): x = N / det; `field`, the denominators being the determinant tested against eps *)
-Ltac nz_side :=
-  match goal with
-  | Hn : ~ Rabs ?q < ?e, He : 0 < ?e |- ?q' <> 0 =>
-      let Hz := fresh "Hz" in
-      intro Hz; apply Hn; replace q with q' by ring; rewrite Hz, Rabs_R0; exact He
-  | Hn : ~ Rabs ?q < ?e, He : 0 < ?e |- ?q' <> 0 =>
-      let Hz := fresh "Hz" in
-      intro Hz; apply Hn; replace q with (- q') by ring; rewrite Hz, Ropp_0, Rabs_R0; exact He
-  end.
-Ltac finish_field :=
-  unfold_spec; list_eq; (field; repeat split; nz_side).
-(* H : f args = Some x, with f unfolded *)
-Ltac tree_ok H :=
-  cbv zeta in H; split_tree H; try discriminate H;
-  (injection H; intros; subst; clear H; first [ solve [abstract_divisions; unfold_spec; eliminate_inputs; list_eq; ring]
-          | solve [finish_field]
-          | solve [abstract_divisions; unfold_spec; list_eq; nsatz] ]).
-(* closed forms: a null determinant is reported *)
-Ltac null_det Hdet Heps :=
-  cbv zeta;
-  match goal with
-  | |- context [Rlt_dec (Rabs ?d) ?e] =>
-      replace d with 0 by (rewrite <- Hdet; unfold det1, det2, det3, sel; cbn; ring)
-  end;
-  rewrite Rabs_R0;
-  match goal with |- context [Rlt_dec 0 ?e] => destruct (Rlt_dec 0 e); [reflexivity | contradiction] end.
 
 Section Trees.
 
